@@ -135,8 +135,8 @@ CHECKS = {
     'C19': {'profiles': [('routing', 10000, 300000)], 'oracles': [XRT.oracle_c19], 'level': 'exploration'},
     'C20': {'profiles': [('rx', 8000, 250000)], 'oracles': [XRX.oracle_c20], 'level': 'exploration'},
     'C10': {'profiles': [('core-ends', 3500, 140000), ('core', 1500, 60000), ('core-frag', 1000, 40000),
-                         ('core-ids-ends', 1000, 40000), ('id-reuse-after-end', 3000, 100000)],
-            'oracles': {'core-ends': [O.oracle_c10], 'core': [O.oracle_c10], 'core-frag': [O.oracle_c10], 'core-ids-ends': [O.oracle_c10],
+                         ('core-ids-ends', 1000, 40000), ('id-reuse-after-end', 3000, 100000), ('cancel-sweep', 16, 160)],
+            'oracles': {'cancel-sweep': [O.oracle_c10], 'core-ends': [O.oracle_c10], 'core': [O.oracle_c10], 'core-frag': [O.oracle_c10], 'core-ids-ends': [O.oracle_c10],
                         'id-reuse-after-end': [PH.oracle_c10_reuse]}, 'level': 'exploration'},
 }
 
